@@ -142,6 +142,7 @@ def tally(rep, case, impl_res, ans):
         rep.count('second_model_on_the_directory')
     spec = case['spec']
     rep.count('storage:%s' % ('sparse' if spec.get('template_ind') is not None else 'dense'))
+    rep.count('file_names:%s%s' % ('ALF' if spec.get('alf') else 'KiloSort', ', shanks' if spec.get('channel_shanks') is not None else ''))
     rep.count('n_closest:%d' % case['n_closest'])
     if spec.get('_scaled_template'):
         rep.count('one_template_2^%d_times_larger_than_the_others' % spec['_scaled_template'])
@@ -209,6 +210,8 @@ def gen(tier, rng):
             yield dict(p=PID, spec=spec, n_closest=12, thr_default=0, variants=variants)
             continue
         spec = DC.dense_spec(rng, nc=nc, feats=False, shanks=(i % 3 == 0))
+        if i % 4 == 2:
+            spec['alf'] = True            # the same dataset under its ALF file names (channels.shanks.npy, ...)
         nt = len(spec['templates'])
         if i % 5 == 0:     # force amplitude ties / flat channels
             for t in spec['templates']:
